@@ -40,7 +40,11 @@ def lens_specs(v):
     # xy-polynomial and Chebyshev surfaces with coefficient arrays that are not symmetric (c[i][j] != c[j][i])
     free = [S('poly', R=2 * R, k=0.0, coeffs=[[0.0, 1e-3, 2e-4], [2e-3, 1e-4, 0.0], [5e-4, 0.0, 0.0]], mat=g, t=5.0, stop=True),
             S('cheb', R=-3 * R, k=0.0, coeffs=[[0.0, 0.02, 0.004], [0.03, 0.005, 0.0]], norm=[150.0, 120.0], mat='air', t=1.4 * R)]
-    return dict(freeform=LZ.spec(free, obj=LZ.INF, ap=('EPD', p['epd']), ftype='angle', fields=(0.0, p['ang']), waves=((W, True),)),
+    pk = LZ.spec([S('sphere', R=R, mat=g, t=5.0, stop=True), S('sphere', R=-R, mat='air', t=1.55 * R)], obj=LZ.INF, ap=('EPD', p['epd']), ftype='angle',
+                 fields=(0.0, p['ang']), waves=((W, True),))
+    pk['c15_pickup'] = (1, 'radius', 2, -1.0, 0.0)          # equi-convex: R2 = -R1
+    pk['c15_solve'] = ('marginal_ray_height', 3, 0.0)        # image at the paraxial focus
+    return dict(pickup=pk, freeform=LZ.spec(free, obj=LZ.INF, ap=('EPD', p['epd']), ftype='angle', fields=(0.0, p['ang']), waves=((W, True),)),
                 singlet=LZ.spec(singlet, obj=LZ.INF, ap=('EPD', p['epd']), ftype='angle', fields=(0.0, p['ang']), waves=((W, True),)),
                 asphere4=LZ.spec(asp, obj=p['od'][0] * 2, ap=('EPD', p['epd']), ftype='object_height', fields=(0.0, p['h']), waves=((W, True),)))
 
@@ -67,6 +71,9 @@ def pert_sets(lens):
             'three': [('radius', dict(surface_number=1), None, (0.99, 1.02, 'rel')), ('radius', dict(surface_number=2), None, (0.98, 1.01, 'rel')),
                       ('thickness', dict(surface_number=1), None, (4.9, 5.2, 'abs'))],
         }
+    if lens == 'pickup':
+        return {'source-radius': [('radius', dict(surface_number=1), None, (0.96, 1.04, 'rel'))],
+                'thickness': [('thickness', dict(surface_number=1), None, (4.6, 5.5, 'abs'))]}
     if lens == 'freeform':
         return {
             'polynomial-coeff': [('polynomial_coeff', dict(surface_number=1, coeff_index=[2, 0]), None, (2e-4, 9e-4, 'abs')),
@@ -100,6 +107,17 @@ def units(tier, variant):
         out.append(dict(kind='faults', pattern=list(pat), run='mc', variant=variant))
     out.append(dict(kind='plane-radius', variant=variant))
     return out
+
+
+def build_lens(spec):
+    """The nominal lens of a set-up: built from the spec, plus the pickup / solve the spec names."""
+    o = LZ.build(spec)
+    if spec.get('c15_pickup'):
+        src, attr, dst, sc, off = spec['c15_pickup']
+        o.pickups.add(src, attr, dst, scale=sc, offset=off)
+    if spec.get('c15_solve'):
+        o.solves.add(*spec['c15_solve'])
+    return o
 
 
 def operand_value(o, ot, data):
@@ -136,7 +154,7 @@ def make_sampler(kind, lo, hi):
 
 def setup(unit, spec):
     from optiland.tolerancing.core import Tolerancing
-    o = LZ.build(spec)
+    o = build_lens(spec)
     tol = Tolerancing(o)
     for ot, data in OPERANDS[unit['operands']]:
         d = dict(data)
@@ -159,11 +177,12 @@ def setup(unit, spec):
 def rederive_row(unit, spec, plist, row_values, comp_value):
     """Fresh nominal lens + the recorded perturbation values (+ the recorded compensator value) -> operand values."""
     from optiland.optimization.variable import Variable
-    o = LZ.build(spec)
+    o = build_lens(spec)
     for (vt, kw, nom), val in zip(plist, row_values):
         if val is None:
             continue
         Variable(o, vt, apply_scaling=False, **kw).update(val)
+    o.update()                  # the fresh copy is a lens: its pickups and solves follow the applied values
     if comp_value is not None:
         Variable(o, 'thickness', surface_number=len(spec['surfs'])).update(comp_value)
     return [operand_value(o, ot, data) for ot, data in OPERANDS[unit['operands']]]
@@ -174,7 +193,7 @@ def rederive_row_compensated(unit, spec, plist, row_values):
     optimiser with the run's operands, targets taken on the nominal lens) -> (operand values, compensator value)."""
     from optiland.optimization.variable import Variable
     from optiland.tolerancing.core import Tolerancing
-    o = LZ.build(spec)
+    o = build_lens(spec)
     tol = Tolerancing(o)
     for ot, data in OPERANDS[unit['operands']]:
         tol.add_operand(ot, dict(data, optic=o))
@@ -182,6 +201,7 @@ def rederive_row_compensated(unit, spec, plist, row_values):
     for (vt, kw, nom), val in zip(plist, row_values):
         if val is not None:
             Variable(o, vt, apply_scaling=False, **kw).update(val)
+    o.update()
     tol.compensator.operands = tol.operands
     tol.compensator.run()
     cv = float(np.ravel(tol.compensator.variables[0].value)[0])
@@ -198,7 +218,7 @@ def check_table(part, unit, spec, plist, df, runkind, det, cond):
             # one perturbation at a time: identify which one by its recorded type string, others at nominal
             vals = [None] * len(plist)
             from optiland.optimization.variable import Variable
-            o_tmp = LZ.build(spec)
+            o_tmp = build_lens(spec)
             labels = [str(Variable(o_tmp, vt, apply_scaling=False, **kw).variable) for vt, kw, _ in plist]
             if row['perturbation_type'] not in labels:
                 part.violation(PID, 'row-identifies-its-perturbation', 'SensitivityAnalysis.run', cond, dict(det, row=ri),
@@ -207,7 +227,7 @@ def check_table(part, unit, spec, plist, df, runkind, det, cond):
             vals[labels.index(row['perturbation_type'])] = float(row['perturbation_value'])
         else:
             from optiland.optimization.variable import Variable
-            o_tmp = LZ.build(spec)
+            o_tmp = build_lens(spec)
             labels = [str(Variable(o_tmp, vt, apply_scaling=False, **kw).variable) for vt, kw, _ in plist]
             vals = [float(row[lb]) for lb in labels]
         comp_cols = [c_ for c_ in df.columns if str(c_).startswith('C0')]
@@ -289,6 +309,10 @@ def run_history(part, unit):
         np.random.seed(99)
         np.random.rand(7)
         o2, tol2, _ = setup(unit, spec)
+        if unit['sampler'] != 'range':
+            # ... and an unrelated seeded sampler is created before this one is used
+            from optiland.tolerancing.perturbation import DistributionSampler
+            DistributionSampler('normal', seed=12345, loc=0.0, scale=1.0)
         if unit['word'] == ['mc2']:
             r2 = MonteCarlo(tol2)
             r2.run(2)
@@ -321,7 +345,7 @@ def run_faults(part, unit):
     good = [0.98 * R, 1.0 * R, 1.03 * R]
     bad = 0.4 * p['epd']          # radius smaller than the beam: rim rays miss the surface
     values = [bad if f else g for f, g in zip(unit['pattern'], good)]
-    o = LZ.build(spec)
+    o = build_lens(spec)
     tol = Tolerancing(o)
     data = dict(surface_number=-1, Hx=0.0, Hy=0.0, num_rays=3, wavelength=W, distribution='hexapolar', optic=o)
     tol.add_operand('rms_spot_size', data)
@@ -355,7 +379,7 @@ def run_faults(part, unit):
     for ri in range(len(df)):
         part.evals += 1
         val = float(df.iloc[ri][col])
-        ofresh = LZ.build(spec)
+        ofresh = build_lens(spec)
         ofresh.set_radius(val, 1)
         exp_f2 = operand_value(ofresh, 'f2', {})
         exp_sp = operand_value(ofresh, 'rms_spot_size', dict(data))
@@ -382,7 +406,7 @@ def run_plane_radius(part, unit):
     from optiland.tolerancing.perturbation import RangeSampler
     from optiland.tolerancing.sensitivity_analysis import SensitivityAnalysis
     spec = lens_specs(unit['variant'])['asphere4']
-    o = LZ.build(spec)
+    o = build_lens(spec)
     nominal = canon.optic(o)
     tol = Tolerancing(o)
     tol.add_operand('f2', dict(optic=o))
@@ -399,7 +423,7 @@ def run_plane_radius(part, unit):
                        observed=canon.diff(nominal, now), expected='nominal prescription')
     o.trace_generic(0.0, 0.0, 0.0, 0.5, W)
     y = float(o.surface_group.y[-1, 0])
-    ofresh = LZ.build(spec)
+    ofresh = build_lens(spec)
     ofresh.trace_generic(0.0, 0.0, 0.0, 0.5, W)
     y0 = float(ofresh.surface_group.y[-1, 0])
     if not (abs(y - y0) <= 1e-9 * max(1.0, abs(y0))):
